@@ -38,6 +38,7 @@ type Probe struct{ Name, Term string }
 // Enc encodes one function under contract into an SMT script with obligations.
 type Enc struct {
 	w          *World
+	totalOnly  bool // implPost: only implementers whose contract has no pre-condition
 	top        *ssa.Function
 	fc         *FuncContract
 	lines      []string
